@@ -1,0 +1,116 @@
+//
+// Copyright (c) SAS Institute Inc.
+//
+// Licensed under the Apache License, Version 2.0 (the "License");
+// you may not use this file except in compliance with the License.
+// You may obtain a copy of the License at
+//
+//     http://www.apache.org/licenses/LICENSE-2.0
+//
+// Unless required by applicable law or agreed to in writing, software
+// distributed under the License is distributed on an "AS IS" BASIS,
+// WITHOUT WARRANTIES OR CONDITIONS OF ANY KIND, either express or implied.
+// See the License for the specific language governing permissions and
+// limitations under the License.
+//
+
+package signdeb
+
+import (
+	"errors"
+	"fmt"
+	"io"
+	"strconv"
+	"strings"
+	"time"
+
+	"github.com/blakesmith/ar"
+)
+
+const (
+	arHeaderSize  = 60
+	arHeaderMagic = "`\n"
+)
+
+// arReader iterates over the members of an ar archive. It is used instead of
+// ar.Reader, which slices the fixed-width header fields without validating
+// them and panics on malformed archives.
+type arReader struct {
+	r   io.Reader
+	nb  int64 // unread bytes of the current member
+	pad int64 // padding after the current member
+}
+
+// newArReader checks the global header and returns a reader positioned at the
+// first member
+func newArReader(r io.Reader) (*arReader, error) {
+	magic := make([]byte, len(ar.GLOBAL_HEADER))
+	if _, err := io.ReadFull(r, magic); err != nil || string(magic) != ar.GLOBAL_HEADER {
+		return nil, errors.New("not an ar archive")
+	}
+	return &arReader{r: r}, nil
+}
+
+func arField(b []byte) string {
+	return strings.TrimRight(string(b), " ")
+}
+
+// optional numeric fields are ignored if they do not parse
+func arNumber(b []byte, base int) int64 {
+	n, _ := strconv.ParseInt(arField(b), base, 64)
+	return n
+}
+
+// Next skips whatever is left of the current member and reads the header of
+// the following one. Returns io.EOF at the end of the archive.
+func (rd *arReader) Next() (*ar.Header, error) {
+	if skip := rd.nb + rd.pad; skip != 0 {
+		rd.nb, rd.pad = 0, 0
+		var err error
+		if seeker, ok := rd.r.(io.Seeker); ok {
+			_, err = seeker.Seek(skip, io.SeekCurrent)
+		} else {
+			_, err = io.CopyN(io.Discard, rd.r, skip)
+		}
+		if err != nil {
+			return nil, err
+		}
+	}
+	buf := make([]byte, arHeaderSize)
+	if _, err := io.ReadFull(rd.r, buf); err != nil {
+		return nil, err
+	}
+	if string(buf[58:]) != arHeaderMagic {
+		return nil, errors.New("malformed ar member header")
+	}
+	size, err := strconv.ParseInt(arField(buf[48:58]), 10, 64)
+	if err != nil || size < 0 {
+		return nil, fmt.Errorf("malformed ar member header: invalid size %q", arField(buf[48:58]))
+	}
+	rd.nb = size
+	rd.pad = size & 1
+	return &ar.Header{
+		Name:    arField(buf[0:16]),
+		ModTime: time.Unix(arNumber(buf[16:28], 10), 0),
+		Uid:     int(arNumber(buf[28:34], 10)),
+		Gid:     int(arNumber(buf[34:40], 10)),
+		Mode:    arNumber(buf[40:48], 8),
+		Size:    size,
+	}, nil
+}
+
+// Read from the current member
+func (rd *arReader) Read(b []byte) (int, error) {
+	if rd.nb == 0 {
+		return 0, io.EOF
+	}
+	if int64(len(b)) > rd.nb {
+		b = b[:rd.nb]
+	}
+	n, err := rd.r.Read(b)
+	rd.nb -= int64(n)
+	if err == io.EOF && rd.nb > 0 {
+		err = io.ErrUnexpectedEOF
+	}
+	return n, err
+}
